@@ -3,14 +3,15 @@ import random
 from pipefam import *
 
 GEN = 'C14'
-MODEL_FN = 'Model/Cfg.v:compile/resolve, Model/Packet.v:get_bytes/map_custom/apply_layer_maps, Model/ProdNF.v:nf_lookup'
+MODEL_FN = 'Model/Cfg.v:compile/resolve, Model/Packet.v:get_bytes/map_custom/apply_layer_maps, Model/ProdNF.v:nf_lookup, Model/Format.v:compile_fmt/format_json/format_text (field list, renames, renderers, custom fields in the text forms)'
 RULE = ('configs: generated mapping files (1..6 custom protobuf fields varint/string scalar/array with indices 1000..5000; 0..6 '
         'NetFlow v9 / IPFIX mappings with/without PEN and endianness; 0..6 layer mappings over the layer names and aliases of '
         'docs/mapping.md with bit offsets 0..256, bit lengths 1..128, encap on/off; destinations = custom fields or existing '
         'per-flow columns by documented or Go name; field lists, renames, renderers, key lists; port parsers) written as YAML, '
         'loaded by yaml.Unmarshal + ProducerConfig.Compile as cmd/goflow2 does, and run over mixed histories (v5, v9, IPFIX, '
         'sFlow with raw headers that are captures of model frames) through the auto pipe: every message column and custom '
-        'field == model under the compiled abstract configuration; JSON/text/key oracles on the implementation; GetBytes: '
+        'field == model under the compiled abstract configuration, and the JSON and text BYTES of every message == Model/Format.v under the '
+        'same formatter section (fields, renames, renderers on custom fields and columns); key oracle on the implementation; GetBytes: '
         'all 1-byte buffers exhaustively, 2- and 3-byte buffers over a bit basis plus random ones, x offsets 0..24 x lengths 0..24 x shift; doc examples: every ```yaml mapping file shown in docs/mapping.md and '
         'cmd/goflow2/mapping.yaml (re-read from the repository on every run, translated to the abstract configuration by yaml_to_toks) '
         'must load and behave like the model compiled from its own content. '
@@ -19,7 +20,8 @@ TRUSTED = ['Coq 8.16.1 kernel (coqc), vm_compute in the finite GetBytes theorem'
            'Go harness harness/cfg.go, fmt.go; bin/engine.py; the Python YAML printer of this module',
            'modelled, not verified: producer/proto/config_impl.go, reflect.go, producer_packet.go (layer mapping hook)']
 ASSUMPTIONS = ['the abstract configuration printed as tokens and the YAML text describe the same file (both printed from one Python structure)',
-               'formatter.fields / rename / render shape the text output: judged on the implementation (as in C13), not modelled']
+               'the partition key (FNV hash of the key fields) is judged on the implementation: same key fields, same key',
+               'outside the formatter model: timestamps beyond year 9999 under the datetime renderers (not compared)']
 COLS = [('bytes', 'Bytes'), ('packets', 'Packets'), ('src_addr', 'SrcAddr'), ('dst_addr', 'DstAddr'), ('etype', 'Etype'),
         ('proto', 'Proto'), ('src_port', 'SrcPort'), ('dst_port', 'DstPort'), ('in_if', 'InIf'), ('out_if', 'OutIf'),
         ('src_mac', 'SrcMac'), ('dst_mac', 'DstMac'), ('src_vlan', 'SrcVlan'), ('dst_vlan', 'DstVlan'), ('vlan_id', 'VlanId'),
@@ -39,7 +41,7 @@ ALLFIELDS = [c[0] for c in COLS] + ['type', 'time_received_ns', 'sequence_num', 
 
 
 def gen_cfg(rng):
-    """-> (yaml text, cfg tokens)"""
+    """-> (yaml text, formatter + cfg tokens)"""
     toks = ['cfg']
     customs = []
     for i in range(rng.randrange(1, 7)):
@@ -64,8 +66,12 @@ def gen_cfg(rng):
     if ren:
         y += ['  rename:'] + ['    %s: r_%s' % (f, f) for f in ren]
     rr = rng.sample([c['name'] for c in customs], rng.randrange(0, len(customs) + 1))
+    if rng.random() < 0.5:
+        rr += rng.sample([f for f in fields if not f.startswith('cust')], min(3, len(fields) - len(customs)))
+    rmap = {f: rng.choice(['none', 'ip', 'mac', 'etype', 'proto', 'datetime', 'datetimenano', 'string']) for f in rr}
     if rr:
-        y += ['  render:'] + ['    %s: %s' % (f, rng.choice(['none', 'ip', 'mac', 'etype', 'proto', 'datetime', 'string'])) for f in rr]
+        y += ['  render:'] + ['    %s: %s' % (f, rmap[f]) for f in rr]
+    ftoks = fmt_tokens(fields, {f: 'r_' + f for f in ren}, rmap)
     y += ['  protobuf:']
     for c in customs:
         y += ['    - name: %s' % c['name'], '      index: %d' % c['index'], '      type: %s' % c['type'],
@@ -118,13 +124,14 @@ def gen_cfg(rng):
                 y += ['      endianness: little']
             toks += ['layer', key, '#%x' % int(encap), '#%x' % off, '#%x' % ln, d, '#%x' % int(little)]
     toks.append('end')
-    return '\n'.join(y) + '\n', toks
+    return '\n'.join(y) + '\n', ftoks + toks
 
 
 def yaml_to_toks(doc):
     """abstract configuration tokens of a parsed mapping file (the same vocabulary gen_cfg prints)"""
-    toks = ['cfg']
     doc = doc or {}
+    fm = doc.get('formatter') or {}
+    toks = fmt_tokens(fm.get('fields'), fm.get('rename'), fm.get('render')) + ['cfg']
     for c in ((doc.get('formatter') or {}).get('protobuf') or []):
         toks += ['custom', str(c['name']), '#%x' % int(c['index']), '#%x' % (0 if str(c.get('type', '')) == 'varint' else 1),
                  '#%x' % int(bool(c.get('array', False)))]
@@ -207,17 +214,21 @@ def run(chk):
     for _ in range(ncfg):
         y, toks = gen_cfg(rng)
         for h in rng.sample(hists, 4):
-            ins.append('pipec flow yaml:%s %s %s' % (y.encode().hex(), ' '.join(toks), h))
+            ins.append('pipec flow yamlj:%s %s %s' % (y.encode().hex(), ' '.join(toks), h))
     impl = impl_run(chk.harness, ins, timeout=120.0)
     mod = model_run(GEN, ins)
     chk.evals += len(ins)
     chk.count('configs x histories', len(ins))
     bad = []
+    noom = nfmt = 0
     for a, o, m in zip(ins, impl, mod):
         if nontrivial(a, m):
             chk.nontrivial.add(hashlib.sha1(a.encode()).digest()[:8])
+        noom += m.count(' oom')
+        nfmt += m.count(' j ')
+        o = mask_oom(o, m)
         if o != m:
-            cfgtxt = bytes.fromhex(a.split(' ')[2][5:]).decode()
+            cfgtxt = bytes.fromhex(a.split(' ')[2][6:]).decode()
             if 'BAD' in o and 'BAD' not in m:
                 chk.record('scopeA-oracle', dict(concrete=True, input=a, impl=o[:3000], model=m[:3000], config=cfgtxt,
                            what='JSON / key / cross-format oracle failed under a generated mapping file'), {})
@@ -226,8 +237,10 @@ def run(chk):
                 # the same abstract configuration is its reference: a disagreement is a concrete violation
                 chk.record('scopeA', dict(concrete=True, input=a[:60000], impl=o[:3000], expected=m[:3000], config=cfgtxt,
                            what='output under a generated mapping file differs from the reference compiled from the same configuration'), {})
+    chk.count('messages whose JSON and text bytes were compared', nfmt)
+    chk.count('JSON / text forms outside the formatter model (timestamps beyond year 9999 etc.), not compared', noom)
     if ins and len(chk.samples) < 6:
-        chk.samples.append(dict(stream='configs', config=bytes.fromhex(ins[0].split(' ')[2][5:]).decode()[:1200],
+        chk.samples.append(dict(stream='configs', config=bytes.fromhex(ins[0].split(' ')[2][6:]).decode()[:1200],
                                 model=mod[0][:500], impl=impl[0][:500]))
     resolve_scope_b(chk, me, bad, 'configs', {}, None, None)
     # the mapping files the documentation itself shows (re-read from the repository on every run): each must be
@@ -241,7 +254,7 @@ def run(chk):
             chk.notes.append('documented example %s not translated: %s' % (name, str(e)[:100]))
             continue
         for h in rng.sample(hists, min(len(hists), dict(quick=6, thorough=60)[chk.tier])):
-            dl.append('pipec flow yaml:%s %s %s' % (blk.encode().hex(), ' '.join(toks), h))
+            dl.append('pipec flow yamlj:%s %s %s' % (blk.encode().hex(), ' '.join(toks), h))
             dmeta.append(name)
     di = impl_run(chk.harness, dl, timeout=120.0)
     dm = model_run(GEN, dl)
@@ -250,6 +263,7 @@ def run(chk):
     for a, o, m, name in zip(dl, di, dm, dmeta):
         if nontrivial(a, m):
             chk.nontrivial.add(hashlib.sha1(a.encode()).digest()[:8])
+        o = mask_oom(o, m)
         if o != m:
             chk.record('scopeA-doc', dict(concrete=True, input=a[:60000], impl=o[:3000], expected=m[:3000], config=name,
                        what='a mapping file shown in the documentation is rejected by the loader or does not do what the reference compiled from the same file does'), {})
